@@ -8,8 +8,16 @@ import Frp.Model.PluginChain
   Mirrors, as the code is:
     server/service.go  handleConnection (case *msg.Login) + RegisterControl, RegisterWorkConn
     server/control.go  ControlManager.Add/Del/GetByID, handleNewProxy (+ RegisterProxy's name check),
-                       handlePing, worker (session end)
+                       handlePing (chain, VerifyPing, `lastPing.Store`, Pong), NewControl (`lastPing.Store`),
+                       heartbeatWorker (`time.Since(lastPing) > HeartbeatTimeout` ⇒ `conn.Close()`),
+                       worker (session end)
     server/proxy/proxy.go handleUserTCPConnection
+
+  Time is a logical clock (`Srv.now`, any unit; `Srv.hb` = transport.heartbeatTimeout in that unit): a
+  `tick` lets it pass, `hbCheck` is one run of the periodic function of a session's heartbeatWorker.
+  Where `lastPing.Store` stands in handlePing relative to the chain / VerifyPing / the `return` of the
+  refusal branch is regenerated from the source on every run (translate/gen_pluginsitefacts.go →
+  Frp/Gen/PluginSiteFacts.lean, `C15.code_ping_store_gated`).
 
   What the server decides after / apart from the plugins (token check, proxy configuration and listener,
   the random run id) enters as data of the message (`authOk`, `regOk`, `genId`): relational.
@@ -34,8 +42,8 @@ structure Enc (C : Type) where
   newProxy : Str → Str → C
   /-- `retContent.NewProxy.ProxyName` -/
   proxyName : C → Str
-  /-- `&plugin.PingContent{User: {ctl.loginMsg.User…}, Ping: *inMsg}` -/
-  ping : Str → C
+  /-- `&plugin.PingContent{User: {ctl.loginMsg.User…}, Ping: *inMsg}`: privilege key, user -/
+  ping : Str → Str → C
   /-- `&plugin.NewWorkConnContent{User: {ctl.loginMsg.User…}, NewWorkConn: *newMsg}`: run id, user -/
   newWorkConn : Str → Str → C
   /-- `&plugin.NewUserConnContent{User: pxy.GetUserInfo(), ProxyName: pxy.GetName(), …}`: name, user -/
@@ -47,11 +55,14 @@ structure Ctl where
   rid : Str             -- the key in `ctlsByRunID`
   user : Str            -- `ctl.loginMsg.User`: what every later plugin request of the session carries
   proxies : List Str    -- `ctl.proxies` (keys)
+  lastPing : Nat := 0   -- `ctl.lastPing`: the time of the last `Store` (NewControl, handlePing)
   deriving DecidableEq, Repr
 
 /-- `svr.ctlManager` (+ `svr.pxyManager`: the union of the `proxies`) -/
 structure Srv where
   ctls : List Ctl := []
+  now : Nat := 0        -- the clock (`time.Now()`)
+  hb : Nat := 0         -- `serverCfg.Transport.HeartbeatTimeout` (≤ 0: no heartbeat worker)
   deriving DecidableEq, Repr
 
 /-- what arrives at the server -/
@@ -62,13 +73,19 @@ inductive Msg
   /-- a NewProxy message on control connection `slot`.  `regOk`: everything `RegisterProxy` checks
       besides the name (configuration, listener) -/
   | newProxy (slot : Nat) (name : Str) (regOk : Bool)
-  | ping (slot : Nat)
+  /-- a Ping message on control connection `slot` carrying this privilege key.  `authOk`:
+      `authVerifier.VerifyPing` of the (rewritten) message -/
+  | ping (slot : Nat) (key : Str) (authOk : Bool)
   /-- a NewWorkConn message (on a connection of its own) carrying this run id -/
   | newWorkConn (rid : Str)
   /-- a user connection accepted by the listener of proxy `name` -/
   | newUserConn (name : Str)
   /-- control connection `slot` ended: `Control.worker` closes every proxy, the session is deleted -/
   | connClosed (slot : Nat)
+  /-- `d` units of time pass -/
+  | tick (d : Nat)
+  /-- the periodic function of the heartbeatWorker of the session on `slot` runs once -/
+  | hbCheck (slot : Nat)
   deriving DecidableEq, Repr
 
 /-- one visit of a gated call site -/
@@ -90,10 +107,18 @@ def Srv.hasProxy (s : Srv) (name : Str) : Bool := s.ctls.any (fun c => c.proxies
 
 /-- `ctlManager.Add(runID, ctl)`: a Control stored under the same run id is `Replaced` (its
     connection is closed, `RegisterControl` waits until its worker has ended it) -/
-def Srv.add (s : Srv) (c : Ctl) : Srv := { ctls := s.ctls.filter (fun o => o.rid ≠ c.rid) ++ [c] }
+def Srv.add (s : Srv) (c : Ctl) : Srv := { s with ctls := s.ctls.filter (fun o => o.rid ≠ c.rid) ++ [c] }
 
 def Srv.addProxy (s : Srv) (slot : Nat) (n : Str) : Srv :=
-  { ctls := s.ctls.map (fun c => if c.slot = slot then { c with proxies := c.proxies ++ [n] } else c) }
+  { s with ctls := s.ctls.map (fun c => if c.slot = slot then { c with proxies := c.proxies ++ [n] } else c) }
+
+/-- `ctl.lastPing.Store(time.Now())` on the Control that serves `slot` -/
+def Srv.beat (s : Srv) (slot : Nat) : Srv :=
+  { s with ctls := s.ctls.map (fun c => if c.slot = slot then { c with lastPing := s.now } else c) }
+
+/-- heartbeatWorker's test: `HeartbeatTimeout > 0` (else the worker returns at once) and
+    `time.Since(ctl.lastPing) > HeartbeatTimeout` -/
+def Srv.expired (s : Srv) (c : Ctl) : Bool := decide (0 < s.hb) && decide (s.hb < s.now - c.lastPing)
 
 /-- one message, with the plugin manager as it is at that moment -/
 def step {C : Type} (E : Enc C) (m : Manager C) (s : Srv) : Msg → Srv × List (Ev C)
@@ -105,10 +130,11 @@ def step {C : Type} (E : Enc C) (m : Manager C) (s : Srv) : Msg → Srv × List 
     | .ok c' =>
       -- if err == nil { m = &retContent.Login; err = svr.RegisterControl(conn, m, internal) }
       -- RegisterControl: if loginMsg.RunID == "" { loginMsg.RunID = util.RandID() }; VerifyLogin;
-      --                  NewControl; ctlManager.Add (replaces a live one); ctl.Start (LoginResp)
+      --                  NewControl (ctl.lastPing.Store(time.Now())); ctlManager.Add (replaces a live
+      --                  one); ctl.Start (LoginResp)
       let rid' := if E.loginRid c' = [] then genId else E.loginRid c'
       if authOk then
-        (s.add ⟨slot, rid', E.loginUser c', []⟩, [⟨.login, m.loginPlugins, c, r.1, r.2, true⟩])
+        (s.add ⟨slot, rid', E.loginUser c', [], s.now⟩, [⟨.login, m.loginPlugins, c, r.1, r.2, true⟩])
       else (s, [⟨.login, m.loginPlugins, c, r.1, r.2, false⟩])
     | _ => (s, [⟨.login, m.loginPlugins, c, r.1, r.2, false⟩])     -- LoginResp{Error}, conn.Close()
   | .newProxy slot name regOk =>
@@ -126,13 +152,20 @@ def step {C : Type} (E : Enc C) (m : Manager C) (s : Srv) : Msg → Srv × List 
           (s.addProxy slot n, [⟨.newProxy, m.newProxyPlugins, c, r.1, r.2, true⟩])
         else (s, [⟨.newProxy, m.newProxyPlugins, c, r.1, r.2, false⟩])
       | _ => (s, [⟨.newProxy, m.newProxyPlugins, c, r.1, r.2, false⟩])
-  | .ping slot =>
+  | .ping slot key authOk =>
     match s.bySlot slot with
     | none => (s, [])
     | some ctl =>
-      let c := E.ping ctl.user
+      -- handlePing: content := &PingContent{User{ctl.loginMsg.User…}, Ping: *inMsg}
+      --   retContent, err := pluginManager.Ping(content)
+      --   if err == nil { inMsg = &retContent.Ping; err = authVerifier.VerifyPing(inMsg) }
+      --   if err != nil { Send(&Pong{Error}); return }
+      --   ctl.lastPing.Store(time.Now()); Send(&Pong{})
+      let c := E.ping key ctl.user
       let r := m.ping c
-      (s, [⟨.ping, m.pingPlugins, c, r.1, r.2, r.1.isOk⟩])          -- lastPing.Store / Pong{}
+      if r.1.isOk && authOk then
+        (s.beat slot, [⟨.ping, m.pingPlugins, c, r.1, r.2, true⟩])
+      else (s, [⟨.ping, m.pingPlugins, c, r.1, r.2, false⟩])
   | .newWorkConn rid =>
     -- RegisterWorkConn: ctl, exist := ctlManager.GetByID(newMsg.RunID); if !exist { return err }
     match s.byRid rid with
@@ -148,7 +181,12 @@ def step {C : Type} (E : Enc C) (m : Manager C) (s : Srv) : Msg → Srv × List 
       let c := E.newUserConn name ctl.user
       let r := m.newUserConn c
       (s, [⟨.newUserConn, m.newUserConnPlugins, c, r.1, r.2, r.1.isOk⟩])   -- GetWorkConnFromPool, join
-  | .connClosed slot => ({ ctls := s.ctls.filter (fun c => c.slot ≠ slot) }, [])
+  | .connClosed slot => ({ s with ctls := s.ctls.filter (fun c => c.slot ≠ slot) }, [])
+  | .tick d => ({ s with now := s.now + d }, [])
+  | .hbCheck slot =>
+    -- heartbeatWorker: if time.Since(lastPing) > timeout { ctl.conn.Close() } — the dispatcher ends,
+    -- `worker` closes every proxy, the session is deleted (as for connClosed)
+    ({ s with ctls := s.ctls.filter (fun c => !(decide (c.slot = slot) && s.expired c)) }, [])
 
 /-- a history: every message comes with the plugin manager of its moment -/
 def run {C : Type} (E : Enc C) (s : Srv) : List (Manager C × Msg) → Srv × List (Ev C)
@@ -167,7 +205,7 @@ def encContent : Enc Content where
   loginRid := fun c => c.b
   newProxy := fun n u => ⟨n, u⟩
   proxyName := fun c => c.a
-  ping := fun u => ⟨[], u⟩
+  ping := fun k u => ⟨k, u⟩
   newWorkConn := fun r u => ⟨r, u⟩
   newUserConn := fun n _ => ⟨n, []⟩
 
